@@ -100,8 +100,12 @@ def write_evidence(ctx: Ctx, binfo, mod, violations: int, extra: dict):
         assumptions=list(getattr(mod, "ASSUMPTIONS", [])),
         wall_s=round(time.time() - ctx.t0, 2), violations=violations,
     )
-    os.makedirs(os.path.join(VERIF, "evidence"), exist_ok=True)
-    with open(os.path.join(VERIF, "evidence", f"{ctx.prop}.json"), "w") as f:
+    # evidence/ describes runs against /repo itself only; a run against another tree
+    # (VERIF_REPO=<scratch copy>: seeded changes, controls) writes to build/evidence-other/
+    ev_dir = os.path.join(VERIF, "evidence") if os.path.realpath(os.environ.get("VERIF_REPO", "/repo")) == "/repo" \
+        else os.path.join(VERIF, "build", "evidence-other")
+    os.makedirs(ev_dir, exist_ok=True)
+    with open(os.path.join(ev_dir, f"{ctx.prop}.json"), "w") as f:
         json.dump(jsonable(ev), f, indent=1)
 
 
